@@ -566,7 +566,10 @@ def poly_read_is_guarded():
     except OSError:
         return False
     k = t.find("::read ( std::istream& i, Rep& P)")
-    return bool(re.search(r"long\s+deg\s*=\s*-\s*1\s*;", t[k:] if k >= 0 else t))
+    body = t[k:] if k >= 0 else t
+    # the stream is tested before deg is used (or deg is initialised), and a negative degree does not reach init()
+    return bool((re.search(r"long\s+deg\s*=\s*-?\s*[0-9]+\s*;", body) or re.search(r"if\s*\(\s*!\s*i\s*\)\s*return", body))
+                and re.search(r"deg\s*<\s*0", body))
 
 
 def reader_tmp_initialised():
@@ -1344,7 +1347,7 @@ def main(tier, replay=None):
         forms[key] = forms.get(key, 0) + 1
     chk.cov["call_forms"] = forms
     # floors on what was actually compared: a run that falls below them because of tooling problems says so prominently
-    floor = {"oracle_comparisons": 9000 if not big else 150000, "model_comparisons": 8500 if not big else 140000}
+    floor = {"oracle_comparisons": 9000 if not big else 120000, "model_comparisons": 8500 if not big else 100000}
     not_run = sum(1 for l in iout if l == "NOT-RUN")
     done = {"oracle_comparisons": (len(cases) - not_run) if not replay else floor["oracle_comparisons"], "model_comparisons": ncorr if not replay else floor["model_comparisons"]}
     chk.cov["compared"] = dict(done, theorems_rechecked=chk.cov.get("discharged", 0), floor=floor)
@@ -1353,7 +1356,7 @@ def main(tier, replay=None):
         missed.append("theorems: %d of %d re-checked" % (chk.cov.get("discharged", 0), chk.cov.get("obligations", 0)))
     if missed:
         chk.cov["floor_missed"] = missed
-        chk.notes.append("FLOOR MISSED (tooling): " + "; ".join(missed))
+        chk.notes.append("FLOOR MISSED (fewer comparisons than a complete run makes: tooling time-out, or cases not run after calls that did not return): " + "; ".join(missed))
     chk.cov["traces_validated_against_impl"] = ncorr
     chk.cov["distribution_by_kind"] = dist
     chk.cov["rings"] = sorted(RINGS)
